@@ -402,7 +402,7 @@ def watcher_only_in_watch(ctx):
                 ctx.check(b.name in reach or outer in reach, f"{short(b.name)}/notify-new", [site(b, bb)], "a notify watcher is created outside the watcher constructor")
 
 
-@rule("C08.CLOSURE-ONLY", ["C08", "C09"], """only the resolver's result reaches the engine, the state cleaner and the output cleaner; an actor is created at most once per
+@rule("C08.CLOSURE-ONLY", ["C08", "C09", "C12", "C20"], """only the resolver's result reaches the engine, the state cleaner and the output cleaner; an actor is created at most once per
       target, from the entry removed from the resolved map""", "K5", floor=4)
 def closure_only(ctx):
     r = ctx.r
@@ -426,13 +426,13 @@ def closure_only(ctx):
     for i, nm in enumerate(names):
         by_name[nm] = m.prov.operand_atoms(cap[1]["rv"]["ops"][i])
     tgt_upvars = {nm for nm, at in by_name.items() if atom_callres(at) & entry_names}
-    ctx.check(bool(tgt_upvars), "main/targets-from-resolver", [site(m, cap[0])], "no captured variable of main's async block derives from the resolver result")
+    ctx.check(bool(tgt_upvars), "main/targets-from-resolver", [site(m, cap[0])], "no captured variable of main's async block derives from the resolver result", props=["C08", "C09"])
     # uses in the async block: TargetActors::new, state delete loop, output clean loop must read those upvars
     ctor = [(bb, t) for bb, t in ma.calls() if callee_base(t).endswith("TargetActors::new") or re.search(r"TargetActors$", f.bodies[callee_base(t)].ret if callee_base(t) in f.bodies else "")]
     ctx.need(ctor, "construction of TargetActors in main")
     for bb, t in ctor:
         ups = r.root_env_fields(ma, t["args"][0])
-        ctx.check(bool(ups) and ups <= tgt_upvars, "main/engine-gets-closure", [site(ma, bb)], f"the engine is given {sorted(ups)} which does not derive from the resolver's result")
+        ctx.check(bool(ups) and ups <= tgt_upvars, "main/engine-gets-closure", [site(ma, bb)], f"the engine is given {sorted(ups)} which does not derive from the resolver's result", props=["C08", "C09"])
     from rules_incr import state_delete_fns
     dels, _ = state_delete_fns(ctx)
     cleaners = {b.name for b in f.user_bodies() if b.kind == "Fn" and any(x in f.cg.reach([b.name]) for x in [s[0].name for s in r.fs_sites(lambda n: "d" if is_fs_delete(n) else None)]) and re.search(r"&[\w:]*Target$", b.locals[1]["ty"] if b.argc >= 1 else "")}
@@ -440,7 +440,8 @@ def closure_only(ctx):
         cn = callee_base(t)
         if cn in dels or cn in cleaners:
             ups = r.root_env_fields(ma, t["args"][0])
-            ctx.check(bool(ups) and ups <= tgt_upvars, f"main/{short(cn)}", [site(ma, bb)], f"`{short(cn)}` is applied to {sorted(ups)}, not to the resolver's result: targets outside the requested closure would be touched")
+            ctx.check(bool(ups) and ups <= tgt_upvars, f"main/{short(cn)}", [site(ma, bb)], f"`{short(cn)}` is applied to {sorted(ups)}, not to the resolver's result: targets outside the requested closure would be touched (or targets inside it left out)",
+                      props=["C08", "C09", "C12", "C20"])
     # actor creation: every site creating an actor's run future, seen in its root view
     for (L, bb, t) in r.launch_sites():
         at = L.prov.operand_atoms(t["args"][0]) if t["args"] else set()
@@ -449,4 +450,4 @@ def closure_only(ctx):
             return d[0] == "call" and d[1].endswith("::contains_key") and d[2] and (atom_has_field(d[2][0], "target_actor_handles") or any("TargetActorHandleSet" in str(x) for x in d[2][0]))
         G = guard_region(L, has_key, False)
         ctx.check(from_remove and bb in G, f"{short(L.name)}/launch-once@{short(callee_base(t))}", [site(L, bb)],
-                  "an actor can be launched more than once for the same target (not guarded by `!handles.contains_key(id)` or not fed from the removed map entry)")
+                  "an actor can be launched more than once for the same target (not guarded by `!handles.contains_key(id)` or not fed from the removed map entry)", props=["C08", "C09"])
